@@ -31,6 +31,16 @@ CLAIMS = {
  'C18': dict(level=MC, design='5 (C18)', tech='TLA+ specs FpArith.tla / ExtGcd.tla (loop model, model-checked) + TLC trace validation of recorded calls and SpVecFP histories',
    text='ExtGcd.tla models the ext_gcd loop (one action per iteration) and TLC proves the Bezout loop invariant and the postcondition for all pairs in -K..K. Recorded calls: ext_gcd on all pairs of a small range and random pairs, get_mult_inverse for all residues and moduli up to a bound (inverse iff gcd = 1, otherwise any exception), is_prime on a range and random values, for int, long and cpp_int; SpVecFP random histories (unit assignment, +, +=, scalar * with negative and multiple-of-p scalars, dot, copy, clear) are validated step by step against dense arithmetic modulo p evaluated by TLC.',
    note=TB + 'operands < 2^15 so that TLC evaluates products exactly in 32-bit integers'),
+
+ 'C05': dict(level=MC, design='5 (C05/C06/C15)', tech='TLA+ spec Approx.tla (extends Mcb.tla) + TLC trace validation of recorded approximate calls; Spanner.tla model-checked',
+   text='Every recorded call of approx_mcb_sva_signed / fvs_trees / iso_trees (double and int weights, k = 1..4) on the TLC-enumerated small space, girth-rich families (cyclic spanners: Petersen, C5/C7, hypercubes) and random graphs is validated by TLC against Approx.tla: each emitted cycle, projected to the caller\'s edge indices AFTER the call has returned, must be a simple cycle of the caller\'s graph (a descriptor of any other graph maps to index 0 = foreign-edge) independent of the previous ones; Return requires m-n+c cycles and ret = their weight under the caller\'s weights.',
+   note=TB + 'projection by property-node address; the design half (spanner MCB + closing paths is a basis within the bound for every scan order) is model-checked in Spanner.tla'),
+ 'C06': dict(level=MC, design='5 (C05/C06/C15)', tech='TLA+ spec Approx.tla Return guard ret <= (2k-1) Opt, = Opt for k = 1, k = 0 rejected; TLC trace validation; Spanner.tla ApproxBound invariant model-checked',
+   text='Same recorded calls with k = 0..4: TLC enables Return only if the emitted weight is at most (2k-1) times the optimum computed in TLA+ and equal to it for k = 1; for k = 0 only Threw with nothing emitted is accepted. Spanner.tla proves by exhaustive model checking (all graphs n <= 4/5, all k, every tie order of the greedy scan, any MCB of the spanner, any shortest closing path) that the construction stays within the bound.',
+   note=TB + 'bound checked against Opt(g) of CycleSpace.tla'),
+ 'C15': dict(level=MC, design='5 (C05/C06/C15)', tech='TLA+ model Spanner.tla model-checked against Components!SpannerViol + TLC trace validation of spanners observed through the PARMCB_VERIF accessors',
+   text='Spanner.tla models the greedy construction with the scan order among equal weights left open; TLC checks the C15 clauses for every order. The real spanner (kept edges with their spanner endpoints and weights, dropped edges) is observed through the guarded read-only accessors for every input and k = 1..4(5) and TLC checks: kept/dropped partition the edge set, spanner edges join the same vertices and carry the input weight, every dropped edge has a path of <= 2k-1 kept edges none heavier than it (hop-bounded BFS evaluated in TLA+), girth of the kept subgraph > 2k.',
+   note=TB + 'one add-only hook commit in /repo guarded by PARMCB_VERIF'),
 }
 NA = {
  'C07': 'memory safety / undefined behaviour is not a property of an abstract state machine: a TLA+ specification cannot observe out-of-bounds or uninitialised accesses and the guidance for this technique family names memory safety as out of reach; switching to sanitizers would be a different technique (DESIGN.md section 6). The returned-handle lifetime clause is checked under C05.',
